@@ -170,6 +170,9 @@ TE(e, p) ==
 
 TStmt(st, p) ==
   IF st.s = "expr" THEN TE(st.x, p) \o << O("Pop", p) >>
+  ELSE IF st.s = "cstmt"       \* constraint name = c;  pre-bind an empty constraint, evaluate, overwrite
+         THEN << OSym(st.nm, p), [op |-> "BuildConstraint", p |-> p, arms |-> << >>], O("Bind", p), OSym(st.nm, p) >>
+                \o TE(st.x, p) \o << O("BindOver", p) >>
   ELSE IF st.s = "clet"        \* let name :: constraint = value
          THEN << OSym(st.nm, p) >> \o TE(st.x, p) \o TE(st.con, p) \o << O("CheckConstraint", p), O("Bind", p) >>
   ELSE << OSym(st.nm, p) >> \o TE(st.x, p) \o << O("Bind", p) >>       \* let
